@@ -1,5 +1,5 @@
 """C15 -- the generated expression runs identically on every Python 3.8+ runtime."""
-import ast, glob, json, os, shutil, subprocess, sys, tempfile
+import time, ast, glob, json, os, shutil, subprocess, sys, tempfile
 from common import Check, fresh_oneliner, load_known_findings, REPO
 import gen_prog, par
 
@@ -40,21 +40,32 @@ FSTRING_PROGRAMS = [
 ]
 
 
-def known_shape(name, src, key, rt, host):
+def _literal_in_field(tree, kinds, nested_too):
+    for n in ast.walk(tree):
+        if isinstance(n, ast.FormattedValue):
+            inner = [m for m in ast.walk(n.value) if isinstance(m, ast.Constant) and isinstance(m.value, kinds)]
+            nested = [m for m in ast.walk(n.value) if isinstance(m, ast.JoinedStr)]
+            if inner or (nested and nested_too):
+                return True
+    return False
+
+
+def known_shape(name, src, key, rt, host, text=None):
     """KF-D47: text produced on a >= 3.12 host (by the `oneliner` unparser, and by the stdlib unparser of that host for
-    bytes literals) relies on 3.12 f-string syntax"""
+    bytes literals) relies on 3.12 f-string syntax: a string / bytes literal or a nested f-string inside a replacement
+    field - in the source, or put there by the conversion (a captured variable read as `__ol_nonlocal_x['v']`)"""
     if rt in ("3.8", "3.9", "3.10", "3.11") and (host in ("3.12", "3.13") or key.startswith("oneliner|")):
-        try:
-            tree = ast.parse(src)
-        except SyntaxError:
-            return None
-        for n in ast.walk(tree):
-            if isinstance(n, ast.FormattedValue):
-                kinds = (str, bytes) if host in ("3.12", "3.13") else (bytes,)
-                inner = [m for m in ast.walk(n.value) if isinstance(m, ast.Constant) and isinstance(m.value, kinds)]
-                nested = [m for m in ast.walk(n.value) if isinstance(m, ast.JoinedStr)]
-                if inner or (nested and host in ("3.12", "3.13")):
-                    return "KF-D47"
+        new_host = host in ("3.12", "3.13")
+        kinds = (str, bytes) if new_host else (bytes,)
+        for code, mode in ((src, "exec"), (text, "eval")):
+            if code is None:
+                continue
+            try:
+                tree = ast.parse(code, mode=mode)
+            except (SyntaxError, ValueError, RecursionError):
+                continue
+            if _literal_in_field(tree, kinds, new_host):
+                return "KF-D47"
     return None
 
 
@@ -74,6 +85,16 @@ def main(argv):
     ck.stats["interpreters_found"] = sorted(interp)
     n = 20 if ck.tier == "quick" else 400
     progs = [("gen#%d" % i, gen_prog.gen_program(ck.rng, size=ck.rng.randrange(4, 10))[0]) for i in range(n)] + FSTRING_PROGRAMS
+    # programs that are slow already as source (huge integers) would only measure the interpreters' bignum speed
+    kept = []
+    for name, src in progs:
+        t0 = time.time()
+        st, _, _ = gen_prog.run_source(src, "exec")
+        if st == "ok" and time.time() - t0 < 1.0:
+            kept.append((name, src))
+        else:
+            ck.count("skipped_slow_or_failing_source")
+    progs = kept
     hosts = [v for v in ("3.10", "3.11", "3.12", "3.13") if v in interp]
     if ck.tier == "quick":
         hosts = [v for v in hosts if v in ("3.10", "3.12", "3.13")] or hosts
@@ -105,12 +126,16 @@ def main(argv):
                 if ok_hosts and bad_hosts:
                     failing.append((name, src, bad_hosts[0][0], "-", key, f"conversion crashes on host {bad_hosts} but succeeds on host {ok_hosts}"))
                 ck.count("host_conversions", len(ok_hosts) + len(bad_hosts))
+        pi_of = {name: i for i, (name, _) in enumerate(progs)}
         for h, texts in host_texts.items():
             jobs = [{"source": s, "texts": {k: t for k, t in tx.items() if isinstance(t, str)}} for (_, s), tx in zip(progs, texts)]
             json.dump(jobs, open(os.path.join(d, f"jobs{h}.json"), "w"))
             def runtime(rt, h=h):
                 out = os.path.join(d, f"rt{h}_{rt}.json")
-                r = subprocess.run([interp[rt], os.path.join(HERE, "c15_runtime.py"), os.path.join(d, f"jobs{h}.json"), out], capture_output=True, text=True, timeout=1800)
+                try:
+                    r = subprocess.run([interp[rt], os.path.join(HERE, "c15_runtime.py"), os.path.join(d, f"jobs{h}.json"), out], capture_output=True, text=True, timeout=3600)
+                except subprocess.TimeoutExpired:
+                    return rt, None, "runtime process exceeded 3600 s"
                 if r.returncode != 0:
                     return rt, None, r.stderr[-300:]
                 return rt, json.load(open(out))["results"], None
@@ -124,9 +149,11 @@ def main(argv):
                     for key, tr in r["texts"].items():
                         ck.case(f"{h}|{rt}|{key}|{src}")
                         ck.count(f"pair:host{h}->rt{rt}")
+                        if tr[0] == "slow":
+                            ck.count("skipped_slow_on:" + rt); continue
                         if tr[0] != "ok" or tr[1] != r["source"][1]:
                             why = f"{tr[0]}: {tr[1][:100]}" if tr[0] != "ok" else "stdout differs"
-                            kf = known_shape(name, src, key, rt, h)
+                            kf = known_shape(name, src, key, rt, h, host_texts[h][pi_of[name]].get(key))
                             if kf and kf in kfs:
                                 kf_seen[kf] = (name, h, rt, key)
                             else:
